@@ -665,3 +665,19 @@ prop('C08',
      'as Python generators.',
      level_note='A sample of the program space; only what the grammar can express (no local variables across blocking '
      'points, no nested switch).')
+
+# ---------------------------------------------- console_putchar from interrupt context (C06, C15)
+CON_ISR = [
+    Stage('console-isr-sweep', ['harness/console_isr.c'] + SHIM, CON, preset='shim', nproc=8,
+          args={'quick': ['--extra', 'sweep'], 'thorough': ['--extra', 'sweep']},
+          needs_min={'newline_placements': 500}),
+    Stage('console-isr-random', ['harness/console_isr.c'] + SHIM, CON, preset='shim', nproc=16,
+          args={'quick': ['--extra', 'random'], 'thorough': ['--extra', 'random']},
+          needs_min={'characters_fed_inside_a_scheduler_pass': 10000, 'lines_dispatched_and_compared': 10000}),
+]
+for _pid in ('C06', 'C15'):
+    PROPS[_pid]['stages'] += CON_ISR
+    PROPS[_pid]['rule'] += (' console-isr-*: console_putchar called from an injected interrupt - the line-completing '
+                            'newline before every schedule point of a three-pass window (3 lines x 3 scheduler states), '
+                            'and whole streams of 1-8 lines fed by randomly placed interrupts (never nested: the ring has one producer) in bursts '
+                            'of <= 15; oracle: every complete line dispatched exactly once, in order, with its arguments.')
